@@ -125,10 +125,19 @@ class MinimizeActionCosts(PlanQualityMetric):
         return f"minimize actions-cost: {costs}"
 
     def __eq__(self, other):
-        return (
-            isinstance(other, MinimizeActionCosts)
-            and self._default == other._default
-            and self._costs == other._costs
+        if (
+            not isinstance(other, MinimizeActionCosts)
+            or self._default != other._default
+            or len(self._costs) != len(other._costs)
+        ):
+            return False
+        # Actions are mutable and their hash follows their content, so the hashes
+        # cached by the 2 dictionaries can be stale and `self._costs == other._costs`
+        # unreliable: compare the items pairwise.
+        other_items = list(other._costs.items())
+        return all(
+            any(a == oth_a and c == oth_c for oth_a, oth_c in other_items)
+            for a, c in self._costs.items()
         )
 
     def __hash__(self):
